@@ -349,7 +349,7 @@ int main(int argc, char **argv) {
       "3-component boxes with different extents (component 0 has 1/8 of the largest extent, or is constant), all q=1..30, "
       "explicit SetParameters and ComputeParameters, 1 and 3 components; thorough adds [0,1], [-1,1], [0,1e9] "
       "(4.5e9 floats; ComputeParameters on an attribute holding the corners, 1 component) for q in "
-      "{1,2,4,8,11,12,14,16,20,22,23,24,25,28,30}. states = distinct (space, q, outcome mask: "
+      "{1,2,4,8,11,14,16,20,23,24,25,30}. states = distinct (space, q, outcome mask: "
       "lossless/lossy/hits 0/hits 2^q-1/exceeds 2^q-1) per batch; non-trivial = a value whose decoded float differs "
       "from the original (rounding happened); all (box, q, configuration, value) tuples are distinct by construction";
   R.explanation =
@@ -374,9 +374,9 @@ int main(int argc, char **argv) {
   const std::vector<Comp> mixed0 = {{7.f, 7.f}, {0.5f, 1.0f}, {3.f, 3.25f}};
   const float constants[] = {0.f, 3.f, -1.f, 1e-6f, 0.1f, 1000.f, 1e6f, 1e9f, -1e9f, 1e-30f, 1e-41f};
   const std::vector<int> q_sub = {1, 2, 8, 11, 14, 16, 20, 24, 30};
-  // the three boxes with 1.1e9 .. 2.1e9 floats each: 15 of the 30 values of q (dense where the quantized integer
+  // the three boxes with 1.1e9 .. 2.1e9 floats each: 12 of the 30 values of q (dense where the quantized integer
   // outgrows the float32 mantissa)
-  const std::vector<int> q_huge = {1, 2, 4, 8, 11, 12, 14, 16, 20, 22, 23, 24, 25, 28, 30};
+  const std::vector<int> q_huge = {1, 2, 4, 8, 11, 14, 16, 20, 23, 24, 25, 30};
 
   if (!asan) {
     for (const U &b : boxes) {
